@@ -414,9 +414,9 @@ impl Property for C20 {
         vec![
             ("calendar".into(), 1),
             ("sun-grid".into(), (132.0 / step) as u64 + 1),
-            ("surface-angles".into(), tier.pick(60, 3000)),
+            ("surface-angles".into(), tier.pick(200, 3000)),
             ("radiation-met".into(), 73),
-            ("radiation-random".into(), tier.pick(30, 2000)),
+            ("radiation-random".into(), tier.pick(100, 2000)),
             ("tables".into(), 32),
         ]
     }
